@@ -217,7 +217,7 @@ theorem Part.accepted_spec {cfg : Cfg} {p : Part} (h : p.Inv cfg) {init : List S
         · exact Or.inr (List.suffix_append_self_iff.2 hsuf)
       · simp only [List.length_append]
         have e1 : p.next + r.length - (c.length + r.length) = p.next - c.length := by omega
-        rw [e1, consecutiveFrom_append]
+        rw [e1, consecutiveFrom_append_iff]
         refine ⟨hcc, ?_⟩
         have e2 : p.next - c.length + c.length = p.next := by omega
         rw [e2]; exact hcons
